@@ -76,12 +76,24 @@ fn strip_generics(f: &str) -> String {
 #[cfg(not(miri))]
 fn gdb_stacks() -> Vec<String> {
     let pid = std::process::id();
-    let out = std::process::Command::new("gdb")
-        .args(["-p", &pid.to_string(), "-batch", "-nx", "-ex", "set pagination off", "-ex", "thread apply all bt 40"])
-        .output();
+    // gdb's output goes to a file, never to a pipe read by this (ptrace-stopped) process, and gdb
+    // itself runs under `timeout` so a wedged debugger cannot hold the process stopped for ever
+    let path = std::env::temp_dir().join(format!("rsv-gdb-{}.txt", pid));
+    let out = std::fs::File::create(&path).ok().and_then(|f| {
+        let f2 = f.try_clone().ok()?;
+        std::process::Command::new("timeout")
+            .args(["-s", "KILL", "60", "gdb", "-p", &pid.to_string(), "-batch", "-nx", "-ex", "set pagination off", "-ex", "thread apply all bt 40"])
+            .stdin(std::process::Stdio::null())
+            .stdout(f)
+            .stderr(f2)
+            .status()
+            .ok()
+    });
+    let text_all = std::fs::read_to_string(&path).unwrap_or_default();
+    let _ = std::fs::remove_file(&path);
     let mut res = Vec::new();
-    if let Ok(o) = out {
-        let text = String::from_utf8_lossy(&o.stdout);
+    if out.is_some() {
+        let text = text_all;
         let mut cur: Vec<String> = Vec::new();
         for line in text.lines() {
             if line.starts_with("Thread ") {
